@@ -642,6 +642,24 @@ static void fam_docs(void)
 		memcpy(T, streams[i], TL);
 		all_flags_both_ends();
 	}
+	/* a number token longer than 256 bytes: every split, and the one-call parse, must agree */
+	{
+		cur_fam = "F3-long-number";
+		size_t k = 0;
+		T[k++] = '[';
+		T[k++] = '1';
+		for (int i = 0; i < 262; i++)
+			T[k++] = '0';
+		memcpy(T + k, ".25e-250]", 9);
+		k += 9;
+		TL = k;
+		cur_flags = 0;
+		explore_text();
+		cur_flags = JSON_TOKENER_STRICT;
+		T[TL++] = 0;
+		explore_text();
+		TL--;
+	}
 	cur_fam = "F3-T13";
 	V *leaves[8];
 	const char *keys[] = {"a", "b"};
